@@ -6,10 +6,12 @@ import (
 	"os"
 
 	"verifharness/internal/mbox"
+	"verifharness/internal/posrep"
 )
 
 var cmds = map[string]func([]string) int{
-	"mbox": mbox.Main,
+	"mbox":   mbox.Main,
+	"posrep": posrep.Main,
 }
 
 func main() {
